@@ -990,6 +990,56 @@ pub fn run_pass(project: &mut Project, pass: &str) -> Vec<String> {
     }
 }
 
+/// The tables of insertable expressions at the start of every block, computed with the REAL transfer
+/// functions (`expression_propagation::Context`: `update_def`, `merge`, call/return edges) and the REAL
+/// fixpoint engine, on the program after the real `merge_def_assignments_to_same_var`. The few lines of
+/// glue repeat the private `compute_expression_propagation` / `extract_results` of the pass (the pass
+/// does not export its tables); the Lean driver checks that the real pass output is the block-local
+/// insertion of exactly these tables, so a divergence of the glue shows up as a disagreement.
+pub fn real_propagation_tables(project: &Project) -> Value {
+    use cwe_checker_lib::analysis::expression_propagation::Context;
+    use cwe_checker_lib::analysis::forward_interprocedural_fixpoint::create_computation;
+    use cwe_checker_lib::analysis::graph::Node;
+    use cwe_checker_lib::analysis::interprocedural_fixpoint_generic::NodeValue;
+    let mut merged = project.clone();
+    for sub in merged.program.term.subs.values_mut() {
+        for blk in sub.term.blocks.iter_mut() {
+            cwe_checker_lib::analysis::expression_propagation::merge_def_assignments_to_same_var(blk);
+        }
+    }
+    let graph = cwe_checker_lib::analysis::graph::get_program_cfg(&merged.program);
+    let context = Context::new(&graph);
+    let mut computation = create_computation(context, None);
+    for node in graph.node_indices() {
+        if let Node::BlkStart(_blk, _sub) = graph[node] {
+            if graph.neighbors_directed(node, petgraph::Incoming).next().is_none()
+                || graph[node].get_sub().term.blocks.first() == Some(graph[node].get_block())
+            {
+                computation.set_node_value(node, NodeValue::Value(std::collections::HashMap::new()));
+            }
+        }
+    }
+    computation.compute_with_max_steps(100);
+    let mut tables: Vec<(String, Value)> = Vec::new();
+    for node in graph.node_indices() {
+        if let Node::BlkStart(blk, _sub) = graph[node] {
+            if let Some(NodeValue::Value(t)) = computation.get_node_value(node) {
+                let mut entries: Vec<(String, Value)> = t
+                    .iter()
+                    .map(|(v, e)| (format!("{}:{}:{}", v.name, v.size, v.is_temp), json!([serde_json::to_value(v).unwrap(), serde_json::to_value(e).unwrap()])))
+                    .collect();
+                entries.sort_by(|a, b| a.0.cmp(&b.0));
+                tables.push((
+                    format!("{}", blk.tid),
+                    json!([serde_json::to_value(&blk.tid).unwrap(), entries.into_iter().map(|x| x.1).collect::<Vec<_>>()]),
+                ));
+            }
+        }
+    }
+    tables.sort_by(|a, b| a.0.cmp(&b.0));
+    Value::Array(tables.into_iter().map(|x| x.1).collect())
+}
+
 pub fn panic_token(p: &str) -> String {
     format!("panic:{}", p.replace(' ', "_"))
 }
